@@ -135,10 +135,10 @@ Definition t_step (x : Z * step) : tm :=
   end.
 
 (** the kernel-checked witness schedules of Properties/C18.v, for their replay on the real code:
-    1 = (a), 2 = (b), 3 = (c), 4 = (d), 5 = (e) *)
+    1 = (a), 2 = (b), 3 = (c), 4 = (d), 5 = (e), 6 = (c2) *)
 Definition witness_play (i : N) : list phase :=
   match i with
-  | 1 => wa_play | 2 => wb_play | 3 => wc_play | 4 => wd_play | 5 => we_play | _ => []
+  | 1 => wa_play | 2 => wb_play | 3 => wc_play | 4 => wd_play | 5 => we_play | 6 => wh_play | _ => []
   end.
 Definition witness_sched (i : N) : list (Z * step) :=
   match play empty_world (witness_play i) with
